@@ -6,5 +6,4 @@ cd /verif
 ls seeded | xargs -P 6 -I{} bash -c '
   sid={}; prop=$(python3 -c "import json;d=json.load(open(\"/verif/seeded/$sid/meta.json\"));print((d.get(\"detected_by\") or [d[\"breaks_property\"]])[0])" 2>/dev/null)
   [ -z "$prop" ] && { echo "$sid: no meta.json"; exit 0; }
-  nd=$(python3 -c "import json;print(' [recorded in meta.json as NOT detected]' if json.load(open('/verif/seeded/$sid/meta.json')).get('not_detected') else '')")
-  echo "$(VERIF_NO_TIE=1 tools/try_seeded.sh $sid $prop '$seed' 2>&1 | tail -1)$nd"'
+  VERIF_NO_TIE=1 tools/try_seeded.sh $sid $prop '$seed' 2>&1 | tail -1'
